@@ -559,6 +559,77 @@ func (k *checker) generalised(r *rng.R) {
 	k.attempt(attempt{Kind: kindFreeRaw, Idx: many}, false, "extreme-arguments")
 }
 
+// chainConfirms: the chain confirms an OLDER revision of the live contract (the renter or host
+// broadcast revision N, the contract moved on to N+1 with different roots, then a block with
+// revision N is mined). The chain step must not touch what the host holds as the latest
+// revision, its roots or the balances; afterwards the contract keeps working. Monitor-only.
+func (k *checker) chainConfirms(r *rng.R) {
+	e, res := k.e, k.c.Res
+	for round, base := range []int{2, 5} {
+		if k.broken {
+			return
+		}
+		k.ensure(seqInts(base))
+		k.attempt(attempt{Kind: kindAppend, Sectors: []int{6, 7}}, true, "chain-confirmation") // revision N
+		stN := e.snapshot()
+		basis, fce, err := e.ec.V2FileContractElement(e.cid)
+		if err == nil {
+			_, err = e.cm.AddV2PoolTransactions(basis, []types.V2Transaction{{FileContractRevisions: []types.V2FileContractRevision{{Parent: fce.Copy(), Revision: stN.rev}}}})
+		}
+		if err != nil {
+			res.Notes = append(res.Notes, "chain-confirmation: the revision transaction was not accepted by the pool: "+errText(err))
+			res.Count("chain-confirmation:pool-refused")
+			return
+		}
+		// the contract moves on while revision N waits in the pool
+		var later []attempt
+		if round == 0 {
+			later = []attempt{{Kind: kindFreeClient, Idx: []uint64{0}}}
+		} else {
+			later = []attempt{{Kind: kindFreeRaw, Idx: []uint64{3, 1}}, {Kind: kindAppend, Sectors: []int{0}}, {Kind: kindRoots, Off: 1, Len: 2}}
+		}
+		for _, a := range later {
+			k.attempt(a, true, "chain-confirmation")
+		}
+		before := e.snapshot()
+		e.mine(types.VoidAddress, 1) // confirms revision N; the contractor follows the chain
+		e.quiesce()
+		after := e.snapshot()
+		res.Count("chain-confirmation:older-revision-mined")
+		res.Eval(fmt.Sprint("confirm-older", round, k.names(before.roots)), true)
+		rp := map[string]any{"base": seqInts(base), "steps": append([]string{"append[6 7] (revision N)", "broadcast revision N"}, func() (x []string) {
+			for _, a := range later {
+				x = append(x, a.String())
+			}
+			return append(x, "mine one block")
+		}()...), "revision_confirmed": stN.rev.RevisionNumber, "latest_before_block": before.rev.RevisionNumber, "latest_after_block": after.rev.RevisionNumber, "roots_after": k.names(after.roots)}
+		if proto4.MetaRoot(after.roots) != after.rev.FileMerkleRoot || uint64(len(after.roots))*proto4.SectorSize != after.rev.Filesize {
+			res.Fail("stored-roots-do-not-hash-to-committed-root", fmt.Sprintf("after a block confirmed revision %d of the contract (latest was %d) the host holds revision %d with FileMerkleRoot %v, Filesize %d over %d roots hashing to %v", stN.rev.RevisionNumber, before.rev.RevisionNumber, after.rev.RevisionNumber, after.rev.FileMerkleRoot, after.rev.Filesize, len(after.roots), proto4.MetaRoot(after.roots)), rp)
+		}
+		if rt, rv, b := sameSnap(before, after); !rt || !rv || !b {
+			res.Fail("chain-confirmation-changes-contract-state", fmt.Sprintf("mining a block that confirms revision %d changed the host's record of the contract: roots same=%v, latest revision same=%v (number %d -> %d), balances same=%v", stN.rev.RevisionNumber, rt, rv, before.rev.RevisionNumber, after.rev.RevisionNumber, b), rp)
+		}
+		k.last = nil
+		// the contract keeps working from the renter's latest revision
+		for _, a := range []attempt{{Kind: kindRoots, Off: 0, Len: 1}, {Kind: kindAppend, Sectors: []int{1}}, {Kind: kindFreeClient, Idx: []uint64{0, 0}}} {
+			k.attempt(a, true, "chain-confirmation")
+		}
+	}
+	// confirming the LATEST revision is a no-op too
+	st := e.snapshot()
+	if basis, fce, err := e.ec.V2FileContractElement(e.cid); err == nil {
+		if _, err := e.cm.AddV2PoolTransactions(basis, []types.V2Transaction{{FileContractRevisions: []types.V2FileContractRevision{{Parent: fce.Copy(), Revision: st.rev}}}}); err == nil {
+			e.mine(types.VoidAddress, 1)
+			after := e.snapshot()
+			res.Count("chain-confirmation:latest-revision-mined")
+			if rt, rv, b := sameSnap(st, after); !rt || !rv || !b {
+				res.Fail("chain-confirmation-changes-contract-state", fmt.Sprintf("mining a block that confirms the latest revision %d changed the host's record: roots same=%v revision same=%v balances same=%v", st.rev.RevisionNumber, rt, rv, b), map[string]any{"steps": []string{"broadcast latest revision", "mine one block"}})
+			}
+		}
+	}
+	k.last = nil
+}
+
 // blindWorker is a renter working on one contract with nothing but what the RPCs return: its
 // own record of the revision and its own list model; the harness does not look at the host
 // while it runs.
@@ -1259,6 +1330,7 @@ func runC09(c *hx.Ctx) {
 	k.ensure(seqInts(3))
 	k.accountAttempts(r, "account")
 	k.generalised(r)
+	k.chainConfirms(r)
 	k.readBack("after the exhaustive phases")
 	res.Exhaustive = true
 	res.Explored = map[string]any{"max_contract_size_client_free": maxSize, "max_contract_size_raw_any_order": rawSize, "pool_sectors": len(e.pool)}
